@@ -420,6 +420,8 @@ class Policy(object):
                 return self.amount(0, 2000)
             if base == 'box_4':
                 # refund of overpaid interest: usually small, sometimes larger than this year's interest
+                if p.get('big_1098_refund'):
+                    return money(d, 16000, 40000)
                 return self.amount(0, 300) if d(st.integers(0, 7)) else self.amount(300, 25000)
             if base == 'box_5':
                 return self.amount(0, 1500)
